@@ -3,6 +3,7 @@
    proxy_agent_extension/src/common.rs and service_state.rs by the correspondence check). *)
 From GPA Require Import Health HealthProofs.
 From GPA Require Import HealthHistoryProofs.
+From GPA Require Import HealthExactProofs.
 
 (* Error only after at least 20 consecutive failed observations: whenever the report after a
    history [obs] (from StatusState::new()) is Error, the history has >= 20 observations and
@@ -125,6 +126,40 @@ Print Assumptions C20_two_healthy_polls.
 Theorem C20_default_is_new : ss_default = ss_new.
 Proof. exact default_is_new. Qed.
 Print Assumptions C20_default_is_new.
+
+(* ---- exact characterisation (both directions of the hysteresis) ---- *)
+
+(* after ANY history from StatusState::new(): the report is Error if and only if the history ends with at
+   least 20 consecutive failed observations *)
+Theorem C20_error_iff_sustained_failure : forall obs : list bool,
+  cur (run_state ss_new obs) = Error <-> (20 <= trailing false obs)%N.
+Proof. exact error_iff_20. Qed.
+Print Assumptions C20_error_iff_sustained_failure.
+
+(* whatever happened before, 20 or more further consecutive failures are reported as Error: the hysteresis
+   never hides a sustained failure *)
+Theorem C20_sustained_failure_reports_error : forall (obs : list bool) (n : nat),
+  (20 <= n)%nat -> cur (run_state ss_new (obs ++ repeat false n)) = Error.
+Proof. exact sustained_failure_reports_error. Qed.
+Print Assumptions C20_sustained_failure_reports_error.
+
+(* fewer than 20 failures after a success are never reported as Error, whatever happened before *)
+Theorem C20_short_failure_never_error : forall (obs : list bool) (n : nat),
+  (n < 20)%nat -> cur (run_state ss_new (obs ++ true :: repeat false n)) <> Error.
+Proof. exact short_failure_never_error. Qed.
+Print Assumptions C20_short_failure_never_error.
+
+(* a failed observation is never reported as Success *)
+Theorem C20_failure_never_success : forall obs : list bool,
+  cur (run_state ss_new (obs ++ [false])) <> Success.
+Proof. exact failure_never_success. Qed.
+Print Assumptions C20_failure_never_success.
+
+(* the same at the level of polls of the aggregate status file *)
+Theorem C20_poll_error_iff : forall ps : list poll,
+  cur (state_after_polls ss_new ps) = Error <-> (20 <= trailing false (map poll_ok ps))%N.
+Proof. exact poll_error_iff. Qed.
+Print Assumptions C20_poll_error_iff.
 
 (* non-vacuity: a reachable Error state exists (20 failures), 19 do not suffice *)
 Example C20_nonvacuous :
